@@ -17,7 +17,10 @@ SHAPES = {
 SHAPES["wide"] = dict(nodes={"a": (1, []), "b": (2, []), "c": (3, []), "d": (4, [])},
                       make=lambda x, fails: D.Wide(x=x),
                       outputs=lambda x: {"a": x + 1, "b": x + 2, "c": x + 3, "d": x + 4})
-FAILABLE = {"indep": ["f", "k"], "forkjoin": ["p", "q"]}
+SHAPES["splitfail"] = dict(nodes={"s": (1, []), "d": (2, ["s"]), "i1": (3, []), "i2": (4, ["i1"]), "i3": (5, ["i2"])},
+                           make=lambda x, fails: D.SplitPartialFail(xs=[5, 6, 7], fail_on=6 if "s" in fails else -1),
+                           outputs=lambda x: {"d": [8, 9, 10], "i": 13})
+FAILABLE = {"indep": ["f", "k"], "forkjoin": ["p", "q"], "splitfail": ["s"]}
 
 
 def tag_of(ev):
@@ -82,7 +85,8 @@ def c14(shape, fail_bits, choices):
         if err is None:
             return "%s: workflow reported success" % desc
         text = str(err) + "".join(getattr(err, "__notes__", []))
-        missing = [n for n in fails if ("Job %r" % n) not in text and ("'%s'" % n) not in text]
+        import re as _re
+        missing = [n for n in fails if not _re.search(r"'%s(\(\d+\))?'" % _re.escape(n), text)]
         if missing:
             return "%s: the error does not name failed job(s) %s: %s" % (desc, missing, text[:300])
     else:
